@@ -17,6 +17,8 @@ import WK.Proofs.C36_Stages
 namespace WK.C36
 open WK WK.C35
 
+local macro "nonok" : tactic => `(tactic| simp [ok, sysErr, rSuccess, rSystemError, rDisband, rBan, rSendBan, rInBlacklist, rSubscriberNotExist, rNotInWhitelist, rChannelNotExist, rNotAllowSend])
+
 /-- production wiring: the batch store is only ever installed together with the
     permission store (internal/app/wiring.go: both are the same ChannelMetadataStore) -/
 def WF (cfg : Cfg) : Prop := cfg.hasBatch = true → cfg.hasPerm = true
@@ -240,13 +242,14 @@ def wStore1 : Store where
 
 def wCfg : Cfg := { hasPerm := true, hasBatch := true, sys := none, systemDevice := [], whitelist := false }
 
-def wCmd1 : Cmd := { sender := ([0x62, 0x6f, 0x74, 0x5f, 0x5f, 0x5f, 0x5f, 0x63, 0x6d, 0x64] : Bytes), device := ([0x64, 0x31] : Bytes), chanId := ([0x75, 0x32, 0x40, 0x62, 0x6f, 0x74, 0x5f, 0x5f, 0x5f, 0x5f, 0x63, 0x6d, 0x64] : Bytes), chanType := tPerson,
-                     normalize := false, requestScoped := false, scopedN := 0 }
+def wCmd1 : Cmd := { sender := ([0x62, 0x6f, 0x74, 0x5f, 0x5f, 0x5f, 0x5f, 0x63, 0x6d, 0x64] : Bytes), device := ([0x64, 0x31] : Bytes), chanId := ([0x75, 0x32] : Bytes), chanType := tPerson,
+                     normalize := true, requestScoped := false, scopedN := 0 }
 
 /-- **Residual command suffix — the paths disagree.**  A sender whose UID ends in
     `____cmd` and is on the receiver's deny list is refused by the per-send path
     (InBlacklist) but ACCEPTED by the batched path, which strips the suffix a second
     time and consults the deny list of a different user (`bot`). -/
+set_option maxRecDepth 100000 in
 theorem c36_paths_disagree_residual_suffix :
     perSend wCfg wStore1 wCmd1 = ⟨rInBlacklist, .none, none⟩ ∧
     batch wCfg wStore1 wCmd1 = ⟨rSuccess, .none, some ([0x75, 0x32, 0x40, 0x62, 0x6f, 0x74, 0x5f, 0x5f, 0x5f, 0x5f, 0x63, 0x6d, 0x64] : Bytes)⟩ ∧
@@ -488,10 +491,10 @@ theorem disband_rule_mem (cfg : Cfg) (st : Store) (cmd : Cmd) (id : Bytes) (hp :
 theorem rules_nonok (cfg : Cfg) (st : Store) (cmd : Cmd) (id : Bytes) :
     ∀ r ∈ allRules false cfg st cmd id, r.res ≠ ok := by
   have hT : ∀ ty, ∀ r ∈ terminalRules st id ty, r.res ≠ ok := by
-    intro ty r hr; simp [terminalRules] at hr; rcases hr with rfl | rfl <;> decide
+    intro ty r hr; simp [terminalRules] at hr; rcases hr with rfl | rfl <;> nonok
   have hC : ∀ i ty u, ∀ r ∈ commonRules st i ty u, r.res ≠ ok := by
     intro i ty u r hr; simp [commonRules] at hr
-    rcases hr with rfl | rfl | rfl | rfl | rfl | rfl | rfl <;> decide
+    rcases hr with rfl | rfl | rfl | rfl | rfl | rfl | rfl <;> nonok
   unfold allRules
   cases cfg.hasPerm
   · intro r hr; simp at hr
@@ -500,7 +503,7 @@ theorem rules_nonok (cfg : Cfg) (st : Store) (cmd : Cmd) (id : Bytes) :
     · simp only [Bool.false_eq_true, if_false]
       intro r hr
       rcases List.mem_append.mp hr with hr | hr
-      · simp [senderRules] at hr; rcases hr with rfl | rfl <;> decide
+      · simp [senderRules] at hr; rcases hr with rfl | rfl <;> nonok
       · cases hd : cfg.isSystemDevice cmd
         · rw [hd] at hr
           simp only [Bool.false_eq_true, if_false] at hr
@@ -511,20 +514,20 @@ theorem rules_nonok (cfg : Cfg) (st : Store) (cmd : Cmd) (id : Bytes) :
             rcases List.mem_append.mp hr with hr | hr
             · exact hT _ r hr
             · cases hdec : decodePerson id with
-              | none => rw [hdec] at hr; simp at hr; subst hr; decide
+              | none => rw [hdec] at hr; simp at hr; subst hr; nonok
               | some p =>
                 rw [hdec] at hr; simp at hr
-                rcases hr with rfl | rfl | rfl | rfl | rfl <;> decide
+                rcases hr with rfl | rfl | rfl | rfl | rfl <;> nonok
           · simp only [h1, if_false] at hr
             by_cases h2 : cmd.chanType = tGroup
             · simp only [h2, if_true] at hr
               unfold groupRules at hr
               simp only [Bool.false_eq_true, if_false, List.cons_append, List.nil_append, List.mem_cons] at hr
               rcases hr with rfl | rfl | rfl | rfl | hr
-              · decide
-              · decide
-              · decide
-              · decide
+              · nonok
+              · nonok
+              · nonok
+              · nonok
               · exact hC _ _ _ r hr
             · simp only [h2, if_false] at hr
               by_cases h3 : cmd.chanType = tAgent
@@ -533,8 +536,8 @@ theorem rules_nonok (cfg : Cfg) (st : Store) (cmd : Cmd) (id : Bytes) :
                 rcases List.mem_append.mp hr with hr | hr
                 · exact hT _ r hr
                 · cases hdec : decodeAgent id with
-                  | none => rw [hdec] at hr; simp at hr; subst hr; decide
-                  | some p => rw [hdec] at hr; simp at hr; subst hr; decide
+                  | none => rw [hdec] at hr; simp at hr; subst hr; nonok
+                  | some p => rw [hdec] at hr; simp at hr; subst hr; nonok
               · simp only [h3, if_false] at hr
                 by_cases h4 : cmd.chanType = tVisitors
                 · simp only [h4, if_true] at hr
@@ -584,7 +587,8 @@ theorem perSend_delivered_iff (cfg : Cfg) (st : Store) (cmd : Cmd) :
   | invalid => rfl
   | id id w =>
     simp only
-    obtain ⟨a, e⟩ := hx : seqDecision cfg st cmd id
+    generalize seqDecision cfg st cmd id = x
+    obtain ⟨a, e⟩ := x
     unfold finish
     by_cases h1 : e = .none
     · subst h1
